@@ -197,7 +197,14 @@ func (m machine) predict(s Sym) Prediction {
 		}
 	case s == SymRollback:
 		switch m.Phase {
-		case PhBegun, PhP1Done:
+		case PhBegun:
+			return MustSucceed
+		case PhP1Done:
+			if m.P1Dirty {
+				// A.3: store ops after phase 1 are allowed with unspecified result; what a write made
+				// after phase 1 does to the prepared commit (and to its undo) is therefore not predicted
+				return Unspecified
+			}
 			return MustSucceed
 		case PhCommitted:
 			return MustFail
@@ -420,8 +427,20 @@ func apply(base map[string]string, ws []writeOp) map[string]string {
 	return out
 }
 
+// dataJudged: false when the model cannot name the committed contents - a write reported success
+// without a current item, or writes were made after phase 1 (A.3: result unspecified) and the
+// transaction did not end in a successful rollback.
+func (m machine) dataJudged() bool {
+	if m.Mode != sop.ForWriting {
+		return true
+	}
+	if m.Phase == PhCommitted || m.Phase == PhUnknown {
+		return !m.uncertain && !m.P1Dirty
+	}
+	return true
+}
+
 // acceptedData lists the contents of the seeded store the model accepts after the sequence.
-// nil means "not judged" (a write reported success whose effect the model cannot name).
 func (m machine) acceptedData() []map[string]string {
 	base := map[string]string{}
 	for _, kv := range seedData {
@@ -440,14 +459,8 @@ func (m machine) acceptedData() []map[string]string {
 	}
 	switch m.Phase {
 	case PhCommitted:
-		if m.uncertain {
-			return nil
-		}
 		return committedVariants()
 	case PhUnknown:
-		if m.uncertain {
-			return nil
-		}
 		return append([]map[string]string{base}, committedVariants()...)
 	}
 	return []map[string]string{base}
